@@ -36,7 +36,7 @@ theorem good_specEntry (s : S) (e : MEntry) (hi : okInstr s) (he : okEntry e) : 
   cases hn : e.notes with
   | nil => simp
   | cons n rest =>
-    have hok : ∀ m ∈ n :: rest, okNote m := by rw [← hn]; exact he.2
+    have hok : ∀ m ∈ n :: rest, okNote m := by rw [← hn]; exact he.2.1
     have hn0 := hok n (by simp)
     intro x hx
     simp only [List.mem_append, List.mem_cons, List.mem_map] at hx
